@@ -75,6 +75,9 @@ type stats struct {
 	rawScans  int
 	rawVals   int
 	rawTagged int
+	replayRootCmp   int
+	replayStoreCmp  int
+	replayStoreKeys int
 	reverted  int
 	dropped   int
 	deadTags  int
@@ -98,9 +101,13 @@ func (st *stats) getStore() db.DB {
 	return newStore()
 }
 
-func (st *stats) putStore(s db.DB) {
-	for it := s.Iterator(nil, nil); it.Valid(); it.Next() {
-		s.Delete(it.Key())
+// putStore takes a store back; wrote=false: nothing was ever flushed to it (the code under test
+// writes to the store only in Commit).
+func (st *stats) putStore(s db.DB, wrote bool) {
+	if wrote {
+		for it := s.Iterator(nil, nil); it.Valid(); it.Next() {
+			s.Delete(it.Key())
+		}
 	}
 	st.free = append(st.free, s)
 }
@@ -128,6 +135,8 @@ type run struct {
 	fail     *failure
 	st       *stats
 	lastOp   string
+	sh       *shadow // replay oracle (shadow.go), built lazily
+	wrote    bool // Commit was called on r.store
 	dry      bool // model-only simulation (enumerator): no real calls
 }
 
@@ -141,8 +150,12 @@ func newRun(level byte, u *universe, nest int, st *stats) *run {
 
 func (r *run) release() {
 	if r.store != nil {
-		r.st.putStore(r.store)
+		r.st.putStore(r.store, r.wrote)
 		r.store = nil
+	}
+	if r.sh != nil {
+		r.st.putStore(r.sh.store, r.sh.wrote)
+		r.sh = nil
 	}
 }
 
@@ -362,6 +375,7 @@ func (r *run) step(op Op, check bool) {
 			return
 		}
 		if real {
+			r.wrote = true
 			if err := r.sdb.Commit(); err != nil {
 				r.failf("commit-error", "%v", err)
 				return
@@ -372,6 +386,9 @@ func (r *run) step(op Op, check bool) {
 			r.lastRoot = append([]byte(nil), r.sdb.GetRoot()...)
 			if check {
 				r.checkCommitted()
+				if r.fail == nil {
+					r.checkStoreVsReplay()
+				}
 			}
 		}
 	case "reopen":
@@ -422,14 +439,16 @@ func (r *run) update(check bool) {
 	if !bytes.Equal(got, root) {
 		r.failf("root-vs-fresh", "state root after Update is %x, a fresh StateDB fed only the surviving writes has %x\nmodel: %s",
 			got, root, r.describeModel())
+		return
 	}
+	r.checkRootVsReplay()
 }
 
 // freshRoot feeds a fresh StateDB on a fresh store with exactly the model's visible state.
 func (r *run) freshRoot() ([]byte, [][]byte) {
 	m := r.m
 	fs := r.st.getStore()
-	defer r.st.putStore(fs)
+	defer r.st.putStore(fs, false)
 	sdb := statedb.NewStateDB(fs, nil, false)
 	for a, v := range m.acc {
 		if v.Exists {
